@@ -829,6 +829,7 @@ func versionRule(c *Ctx, floor int, include func(fn string) bool) {
 		st  *ssa.Store
 		typ string
 		k   int64
+		vs  verSite
 	}
 	var sites []site
 	for _, fn := range p.Fns {
@@ -838,35 +839,26 @@ func versionRule(c *Ctx, floor int, include func(fn string) bool) {
 		if strings.HasPrefix(p.Name(fn), "Mock") || p.inFile(fn, "mockresponses.go") || p.inFile(fn, "mockbroker.go") {
 			continue
 		}
-		Info(fn).Each(func(it Item) {
-			st, ok := it.In.(*ssa.Store)
-			if !ok {
-				return
-			}
-			ch := fieldChain(st.Addr)
-			if len(ch) == 0 || ch[len(ch)-1].name != "Version" {
-				return
-			}
-			typ := ch[len(ch)-1].owner
-			k, isC := st.Val.(*ssa.Const)
-			if !isC || k.Value == nil || k.Value.Kind() != constant.Int {
-				return
-			}
+		recvTyp := ""
+		if recv := fn.Signature.Recv(); recv != nil {
+			recvTyp, _ = NamedOf(recv.Type())
+		}
+		vs, owners, _ := versionSites(fn, "")
+		for _, v := range vs {
+			typ := owners[v.st]
 			if p.Fn(typ+".requiredVersion") == nil || !strings.HasSuffix(typ, "Request") {
-				return
+				continue
 			}
 			// stores inside the type's own methods (decode) are not version selections
-			if recv := fn.Signature.Recv(); recv != nil {
-				if n, _ := NamedOf(recv.Type()); n == typ {
-					return
-				}
+			if recvTyp == typ {
+				continue
 			}
-			if k.Int64() == 0 {
-				return // the API's first version: if the configured version predates the API, refusing the call is the right answer
+			if v.k == 0 {
+				continue // the API's first version: if the configured version predates the API, refusing the call is the right answer
 			}
-			sites = append(sites, site{fn, st, typ, k.Int64()})
+			sites = append(sites, site{fn, v.st, typ, v.k, v})
 			tables[typ] = true
-		})
+		}
 	}
 	var vnames []string
 	for n := range vers {
@@ -901,7 +893,8 @@ func versionRule(c *Ctx, floor int, include func(fn string) bool) {
 			best, bestName = vers[fl], fl+" (component floor)"
 		}
 		for _, vn := range vnames {
-			if g, _ := reg.Guarded(Item{In: s.st}, Truth{p.IsAtLeast(vn), true}); g {
+			gf, gt := s.vs.guardBlock()
+			if guardedAt(reg, gf, gt, Truth{p.IsAtLeast(vn), true}) {
 				if best.leq(vers[vn]) {
 					best, bestName = vers[vn], vn
 				}
@@ -990,24 +983,19 @@ func c19VersionFloor(c *Ctx) {
 			need = def
 		}
 		var st *ssa.Store
-		Info(fn).Each(func(it Item) {
-			s, ok := it.In.(*ssa.Store)
-			if !ok {
-				return
+		var site verSite
+		vs, _, _ := versionSites(fn, t.typ)
+		for _, v := range vs {
+			if v.k == t.k {
+				st, site = v.st, v
 			}
-			ch := fieldChain(s.Addr)
-			if len(ch) == 0 || ch[len(ch)-1].name != "Version" || ch[len(ch)-1].owner != t.typ {
-				return
-			}
-			if k, ok := dConstInt(s.Val); ok && k == t.k {
-				st = s
-			}
-		})
+		}
 		if st == nil {
 			c.Fail(rule, fn, fmt.Sprintf("floor:%s=%d", t.typ, t.k), nil, fmt.Sprintf("%s never selects %s v%d", t.fn, t.typ, t.k), nil)
 			continue
 		}
-		got := vt.atLeast(WholeFn(rootOf(fn)), st.Block(), nil)
+		gf, gt := site.guardBlock()
+		got := vt.atLeast(WholeFn(rootOf(fn)), gf, gt)
 		c.Check(got == need, rule, fn, fmt.Sprintf("floor:%s=%d", t.typ, t.k), st, fmt.Sprintf("%s v%d selected from %s on", t.typ, t.k, need),
 			fmt.Sprintf("%s v%d is selected only for configured versions ≥ %s although it is available from %s on: in between the older request is sent, which cannot ask for all partitions of the group nor carry the coordinator's error — the operation reports success with no offsets", t.typ, t.k, orNone(got), need), nil)
 	}
